@@ -61,6 +61,18 @@ META2 = {
  ("C13","D"): dict(needs="sync global cache with limit; a predicate that matches EVERY stored key; then new keys", demo_dest="tests/", detected_by=["C13 (oracle frame: stale keys left in the queue)"]),
  ("C18","C"): dict(needs="async lru; a hit (holding the DashMap shard guard) overlapping a store or invalidation that holds the order queue", demo_dest="cachelito-async/tests/", detected_by=["C18 / C17 (sched part: NORETURN — calls never return on a lock the hooks do not observe; confirmed by a solo rerun)"]),
  ("C18","D"): dict(needs="sync global lru; a hit whose bookkeeping runs when the order queue is empty (overlapping invalidation, or the window of a concurrent first store)", demo_dest="tests/", detected_by=["C18 (sched part: PANIC in a call)"]),
+ ("C01","C"): dict(needs="sync global cache, policy lfu/arc/tlru; a key that is still present and unexpired stored again with a different value (stale refresh)", demo_dest="tests/", detected_by=["C01 (c01 predicate / oracle pure: replaced value served)"]),
+ ("C01","D"): dict(needs="async function with a destructuring pattern as parameter; two calls differing only there", demo_dest="cachelito-async/tests/", detected_by=["C01 / C02 (oracle pure on the pattern-parameter corpus functions)"]),
+ ("C02","C"): dict(needs="async METHOD with >= 1 argument whose receiver's Debug text does not end in a delimiter (unit variant, integer); two (receiver, argument) pairs whose texts concatenate alike", demo_dest="cachelito-async/tests/", detected_by=["C02 (keys part: collision on am_tag / am_tag2, after unit-variant receivers and arguments were added)"]),
+ ("C02","D"): dict(needs="sync function with a parameter named exactly `part` in key position 3 or later; two calls differing only there", demo_dest="tests/", detected_by=["C02 (keys part: collision on s_names, after capturable parameter names were added; macro part on f159-f161)"]),
+ ("C03","C"): dict(needs="sync global cache; THREE callers of one new key: S misses and computes, F misses, stores and returns, R calls while S is between removing and re-inserting the entry in its own store", demo_dest="tests/", detected_by=["C03 / C14 (sched part: three-caller schedules with two preemptions: MISS)"]),
+ ("C03","D"): dict(needs="async function with >= 2 arguments whose Debug texts are not self-delimiting (integers); a pair like (1,23) / (12,3)", demo_dest="cachelito-async/tests/", detected_by=["C03 (oracle once on f156/f157: first call served without running the body)", "C02 (keys part: collision on a_i2)"]),
+ ("C09","C"): dict(needs="Result function with max_memory and a budget within size_of::<T>() per entry of the real sizes", demo_dest="tests/", detected_by=["C09 (oracle err: an Ok that fits is not stored / oracle mem: eviction although everything fits — sizes now computed by the harness, not by the library)", "C05 (memest part)"]),
+ ("C09","D"): dict(needs="sync Result function whose Ok leaves the body through an explicit `return Ok(..)`", demo_dest="tests/", detected_by=["C09 (oracle err: Ok not stored; corpus functions f163-f165)"]),
+ ("C10","C"): dict(needs="sync Result function with cache_if; a predicate that accepts an Err", demo_dest="tests/", detected_by=["C10 (oracle cif: a result that must not be cached is stored)"]),
+ ("C10","D"): dict(needs="sync global cache with ttl, limit and cache_if; an entry expires, its refresh is rejected, then another key is accepted", demo_dest="tests/", detected_by=["C10 (oracle cif: a result that is to be cached is not stored after the call; lifetime scenarios)"]),
+ ("C11","C"): dict(needs="async cache with invalidate_on and limit, exactly full; a stale refresh whose policy victim is a different key", demo_dest="cachelito-async/tests/", detected_by=["C11 (oracle limit: a store that did not overflow removed an entry)"]),
+ ("C11","D"): dict(needs="sync global cache with ttl and invalidate_on, no max_memory; stale refresh at age < T, then a call older than T from the first store but younger from the refresh", demo_dest="tests/", detected_by=["C11 (oracle ttl with history-based birth: unexpired entry not found; lifetime scenarios)", "C06"]),
 }
 
 
